@@ -148,6 +148,9 @@ BASE_SENTENCES_SRC = [
     ([("Cn", 1), ("Co", 1), ("Cs", 1)], [(1, 2)], []),
     ([], [], None),
     ([("Cl", 2)], [(2, 1), (1, 2)], [(1, (("mass", 35),)), (2, (("mass", 37),))]),
+    # a sentence of > 120 characters (messages/excerpts that depend on the input length, columns >= 80)
+    ([("C", 12), ("H", 4), ("N", 2)], [(1, 5), (2, 6), (3, 17), (4, 18), (5, 6), (5, 7), (6, 8), (7, 9), (8, 10), (9, 11), (10, 12),
+                                       (11, 13), (12, 14), (13, 15), (14, 16), (15, 17), (16, 18)], [(17, (("mass", 15),)), (18, (("rad", 2), ("mass", 14)))]),
 ]
 
 
